@@ -11,7 +11,7 @@
      restrictions a           Selector.LabelRestrictions();  satisfies R L = the label map L meets every restriction. *)
 From Coq Require Import List NArith Bool Permutation.
 From Verif.Common Require Import Labels.
-From Verif.C07 Require Import Model Spec MapLemmas AltProofs IdxProofs LiveProofs StepProofs RestrProofs CandProofs OrderProofs IterProofs Proofs.
+From Verif.C07 Require Import Model Spec MapLemmas AltProofs IdxProofs LiveProofs StepProofs RestrProofs CandProofs CandExact OrderProofs IterProofs Proofs.
 Import ListNotations.
 Open Scope N_scope.
 
@@ -37,6 +37,16 @@ Theorem c07_alternation :
     /\ (rel_mem s i (by_sel x) = true <-> exists ks, proj s i (log x) = ks ++ [true]).
 Proof. exact alternation. Qed.
 Print Assumptions c07_alternation.
+
+(* Whole-history statement at the level of the OBSERVABLES the correspondence run compares: for every history and
+   every iteration order, the specification oracle of Spec.v (match map after each call = direct evaluation, both
+   maps agree, callbacks alternate and end in the match map) accepts the model's own run.  The same oracle is
+   evaluated on the implementation's observations by the correspondence run. *)
+Theorem c07_model_meets_spec :
+  forall (ord : nat -> list N -> list N), (forall t l, Permutation (ord t l) l) ->
+  forall ops, ok_trace ops (run_obs ord empty_st ops) = true.
+Proof. exact model_meets_spec_perm. Qed.
+Print Assumptions c07_model_meets_spec.
 
 (* Pruning by label restrictions never excludes a true match: whenever the selector evaluates to true on a label
    map, the map satisfies the selector's LabelRestrictions (every node type; And = intersection, Or = union). *)
@@ -65,6 +75,13 @@ Theorem c07_candidates_superset : forall ops s a L,
   In s (ri_candidates (fold_left ri_step ops ri_empty) L).
 Proof. exact ri_candidates_superset. Qed.
 Print Assumptions c07_candidates_superset.
+
+(* ... and nothing else: every candidate the LabelRestrictionIndex yields is a selector that is in the index now (no
+   stale filing survives DeleteSelector or a re-AddSelector; a stale id would be a nil *ipSetData in the caller). *)
+Theorem c07_candidates_live : forall ops L s,
+  In s (ri_candidates (fold_left ri_step ops ri_empty) L) -> nlookup s (ri_sels_of ops) <> None.
+Proof. exact ri_candidates_live. Qed.
+Print Assumptions c07_candidates_live.
 
 (* LabelNameValueIndex: after any history of Add/Remove, the scan strategy chosen for (label l, restriction r)
    yields every stored item whose own labels satisfy r on l. *)
@@ -106,6 +123,19 @@ Theorem c07_filing_order_free : forall a R', Permutation (restrictions a) R' -> 
 Proof. exact classify_order_free. Qed.
 Print Assumptions c07_filing_order_free.
 
+(* The two other loops over Go maps in the restriction code are order-free as well: AndNode ranges over an operand's
+   map (any order gives the same map), OrNode ranges over the accumulated map and only looks the operand's map up. *)
+Theorem c07_and_merge_order_free : forall lr op op' k,
+  NoDup (map fst op) -> Permutation op op' -> blookup k (and_merge lr op') = blookup k (and_merge lr op).
+Proof. exact and_merge_order_free. Qed.
+Print Assumptions c07_and_merge_order_free.
+
+Theorem c07_or_merge_order_free : forall lr lr' op op',
+  Permutation lr lr' -> NoDup (map fst op) -> Permutation op op' ->
+  Permutation (or_merge lr op) (or_merge lr' op').
+Proof. exact or_merge_order_free. Qed.
+Print Assumptions c07_or_merge_order_free.
+
 (* The restriction oracle of Spec.v accepts the model on every selector and every list of label maps. *)
 Theorem c07_restr_model_meets_spec : forall a maps,
   snd (check_case (CRestr a (restrictions a) maps (map (eval a) maps))) = true.
@@ -138,3 +168,15 @@ Example c07_restrictions_example :
   = [([98], {| r_present := false; r_absent := true; r_vals := None |});
      ([97], {| r_present := true; r_absent := false; r_vals := Some [[121]] |})].
 Proof. vm_compute. reflexivity. Qed.
+
+(* Non-vacuity for the name/value index and iterEndpointCandidates: endpoints 1 (a=x, parent 7), 2 (a=y, parent 7),
+   3 (no labels, parent 8); parent 7 has b=y, parent 8 has b=z.  For  a == "x" && b == "y"  the endpoint index
+   narrows to endpoint 1; for  b == "y"  (a label only parents carry) the parent strategy yields 7's children. *)
+Example c07_iter_example :
+  let a := [97] in let b := [98] in let vx := [120] in let vy := [121] in let vz := [122] in
+  let x := np_of [(1, ([(a, vx)], [7])); (2, ([(a, vy)], [7])); (3, ([], [8]))] [(7, [(b, vy)]); (8, [(b, vz)])] in
+  snd (nv_scan (np_eps x) a {| r_present := true; r_absent := false; r_vals := Some [vx; vz] |}) = [1]
+  /\ iter_candidates pest_exact x (restrictions (SAnd [SEq a vx; SEq b vy])) = [1]
+  /\ iter_candidates pest_exact x (restrictions (SEq b vy)) = [1; 2]
+  /\ iter_candidates pest_exact x (restrictions (SEq b vx)) = [].
+Proof. vm_compute. repeat split; reflexivity. Qed.
